@@ -29,7 +29,7 @@ from vf.ref import quad
 from vf.ref import statmech as ref
 
 ID = 'C01'
-N = {'quick': 4000, 'thorough': 60000}
+N = {'quick': 3000, 'thorough': 60000}
 NT_RULE = ('case = species spec (one model per slot trans/vib/rot/elec/nucl + misc ConstantModes + '
            'reference offsets + options + <=2 re-assignment operations + 3 (T,P) points + one T '
            'interval + one P pair) or a geometry case (g2 molecule + rotation + translation + atom '
@@ -468,7 +468,7 @@ def _cls_of(m):
     return m['type'] if m else 'EmptyMode'
 
 
-def _integral_check(ctx, oracle, mech, f, T1, T2, lhs, ends):
+def _integral_check(ctx, oracle, mech, f, T1, T2, lhs, ends, count=True):
     """lhs == int_T1^T2 f dT within TOL_INT*max(1,|I|) + 1e-12*ends"""
     r = ctx.call(oracle, mech, quad.integrate, f, T1, T2)
     if r is core.NOVALUE:
@@ -477,6 +477,11 @@ def _integral_check(ctx, oracle, mech, f, T1, T2, lhs, ends):
     scale = max(1.0, abs(I)) + 1e-5 * ends
     if not (qerr <= 0.1 * TOL_INT * scale):
         ctx.inconc(oracle, 'quadrature_error', qerr=qerr, scale=scale, mech=mech, T1=T1, T2=T2)
+        return
+    if not count:
+        # auxiliary comparison (deviation other than a listed signature): report only failures
+        if ctx.err(lhs, I, scale) > TOL_INT:
+            ctx.fail(oracle, mech, got=lhs, want=I, T1=T1, T2=T2)
         return
     ctx.close(oracle, lhs, I, TOL_INT, mech, scale=scale, T1=T1, T2=T2)
 
@@ -492,7 +497,7 @@ def _memo(fn):
     return g
 
 
-def relational(ctx, get, mech0, conds, interval, Ppair, has_trans, r5=True, tr=None):
+def relational(ctx, get, mech0, conds, interval, Ppair, has_trans, r5=True, tr=None, debye_theta=None):
     """R1-R5 on anything that answers get(quantity, T, P) -> float (mode object or StatMech).
     `get` raises on failure of the code under test."""
     vals = {}
@@ -533,7 +538,16 @@ def relational(ctx, get, mech0, conds, interval, Ppair, has_trans, r5=True, tr=N
         _integral_check(ctx, 'R2', dict(mech0, rel='dH=Cp'), cp, T1, T2,
                         T2 * end[('HoRT', T2)] - T1 * end[('HoRT', T1)],
                         abs(T2 * end[('HoRT', T2)]) + abs(T1 * end[('HoRT', T1)]))
-        _integral_check(ctx, 'R3', dict(mech0, rel='dS=Cp/T'), lambda T: cp(T) / T, T1, T2,
+        m3 = dict(mech0, rel='dS=Cp/T')
+        if debye_theta is not None:
+            # signature of the listed Debye finding: S carries an extra 9*Theta/(4T); any other
+            # deviation of a Debye species is tagged differently and is therefore NOT covered by it
+            m3['sig'] = '+9Theta/4T'
+            extra = 2.25 * debye_theta * (1. / T2 - 1. / T1)
+            _integral_check(ctx, 'R3', dict(m3, sig='other'), lambda T: cp(T) / T, T1, T2,
+                            end[('SoR', T2)] - end[('SoR', T1)] - extra,
+                            abs(end[('SoR', T2)]) + abs(end[('SoR', T1)]) + abs(extra), count=False)
+        _integral_check(ctx, 'R3', m3, lambda T: cp(T) / T, T1, T2,
                         end[('SoR', T2)] - end[('SoR', T1)],
                         abs(end[('SoR', T2)]) + abs(end[('SoR', T1)]))
     # pressure dependence at the first temperature
@@ -564,6 +578,11 @@ def closed_forms(ctx, obj, m, conds, include_ZPE, mech0):
             g = ctx.call('R7', mech, mcall, obj, 'get_' + q, T=T, P=P)
             if g is core.NOVALUE:
                 continue
+            if cname == 'DebyeVib' and q in ('UoRT', 'HoRT', 'SoR'):
+                # signature of the listed Debye finding (extra 9*Theta/(4T)); anything else is 'other'
+                extra = 2.25 * m['debye_temperature'] / T
+                sig = '+9Theta/4T' if ctx.err(_num(g) - extra, w) <= TOL_CF else 'other'
+                mech = dict(mech, sig=sig)
             ctx.close('R7', _num(g), w, TOL_CF, mech, T=T, P=P)
         if want.get('q') is not None:
             mech = dict(mech0, q='q')
@@ -634,7 +653,8 @@ def _observe_mode(ctx, obj, m, spec, full=True):
         return
     if full:
         get = lambda q, T, P: _num(mcall(obj, 'get_' + q, T=T, P=P))
-        relational(ctx, get, mech0, conds, spec['interval'], spec['Ppair'], cname == 'FreeTrans')
+        relational(ctx, get, mech0, conds, spec['interval'], spec['Ppair'], cname == 'FreeTrans',
+                   debye_theta=m['debye_temperature'] if cname == 'DebyeVib' else None)
     closed_forms(ctx, obj, m, conds, spec['opts']['include_ZPE'], mech0)
 
 
@@ -651,7 +671,8 @@ def _observe_species(ctx, sm, objs, cur, spec, misc_objs=None, relations=True):
         mech0['elec'] = 'LSR'
     if relations:
         get = lambda q, T, P: _num(getattr(sm, 'get_' + q)(T=T, P=P, **kw))
-        relational(ctx, get, mech0, spec['conds'], spec['interval'], spec['Ppair'], has_trans, r5=False, tr=tr)
+        relational(ctx, get, mech0, spec['conds'], spec['interval'], spec['Ppair'], has_trans, r5=False, tr=tr,
+                   debye_theta=cur['vib']['debye_temperature'] if vibc == 'DebyeVib' else None)
         kw_off = dict(kw, use_references=False)
         for T, P in spec['conds']:
             h = ctx.call('R5', dict(mech0, q='HoRT', trans=tr), sm.get_HoRT, T=T, P=P, **kw_off)
@@ -843,6 +864,14 @@ def _rot_temperatures_ref(atoms, gclass):
     return sorted(hbar ** 2 / (2.0 * e * ref.KB) for e in ev)
 
 
+def _sanity(ctx, got, want, tol, mech, scale, mol):
+    """coarse reference comparison of R8; its error is audited under max_err['R8.sanity'] so that
+    max_err['R8'] shows the invariance comparisons only"""
+    e = ctx.err(got, want, scale)
+    if ctx.check('R8', e <= tol, mech, got=got, want=want, err=e, tol=tol, mol=mol):
+        ctx.max_err['R8.sanity'] = max(ctx.max_err.get('R8.sanity', 0.0), e)
+
+
 def run_geometry(spec, ctx):
     import numpy as np
     from ase.collections import g2
@@ -904,12 +933,11 @@ def run_geometry(spec, ctx):
         want = _rot_temperatures_ref(a0, gclass)
         got = sorted(float(x) for x in d0['rot_T'])
         if len(want) == len(got):
-            ctx.close('R8', got, want, 3e-3, dict(mech, what='rot_temperatures_vs_inertia'),
-                      scale=np.maximum(np.abs(want), 1e-300), mol=spec['mol'])
+            _sanity(ctx, got, want, 3e-3, dict(mech, what='rot_temperatures_vs_inertia'),
+                    np.maximum(np.abs(want), 1e-300), spec['mol'])
     if d0['mass'] is not core.NOVALUE:
         m_ase = float(np.sum(a0.get_masses()))
-        ctx.close('R8', d0['mass'], m_ase, 5e-2, dict(mech, what='molar_mass_vs_atomic_masses'), scale=m_ase,
-                  mol=spec['mol'])
+        _sanity(ctx, d0['mass'], m_ase, 5e-2, dict(mech, what='molar_mass_vs_atomic_masses'), m_ase, spec['mol'])
     if ok('rot_T'):
         r0, r1 = sorted(float(x) for x in d0['rot_T']), sorted(float(x) for x in d1['rot_T'])
         if ctx.check('R8', len(r0) == len(r1), dict(mech, what='rot_temperatures_count'), original=r0, moved=r1,
